@@ -1235,6 +1235,10 @@ class ReferenceResolver:
         # -------------------------
         # end of resolve-loop
         # -------------------------
+        # References may resolve in any order (Postponed). Keep the tool
+        # support list ordered by the position of the reference texts.
+        self.pos_crossref_list.sort(key=lambda ref: ref.ref_pos_start)
+
         # store cross-refs from other models in the parser list (for later
         # processing)
         self.parser._crossrefs = new_crossrefs
